@@ -194,7 +194,8 @@ def get_key_format(key, is_private=None):
             else:
                 networks = network_by_value('prefix_wif', key_hex[:2])
                 if networks:
-                    if key_hex[-10:-8] == '01':
+                    # version byte + 32 byte secret + 01 flag + 4 byte checksum = 38 bytes for a compressed WIF
+                    if len(key_hex) == 76 and key_hex[-10:-8] == '01':
                         key_format = 'wif_compressed'
                     else:
                         key_format = 'wif'
@@ -989,7 +990,7 @@ class Key(object):
         networks = network_by_value('prefix_wif', key_hex[:2])
         compressed = False
         if networks:
-            if key_hex[-10:-8] == '01':
+            if len(key_hex) == 76 and key_hex[-10:-8] == '01':
                 compressed = True
             network = network or next(iter(networks), DEFAULT_NETWORK)
         else:
@@ -1163,11 +1164,14 @@ class Key(object):
                 #         _logger.warning("Current network %s is different from the one found in key: %s" %
                 #                         (network, found_networks[0]))
                 #         self.network = Network(found_networks[0])
-                if key[-1:] == b'\x01':
+                # key = version byte + 32 byte secret, followed by 01 for compressed public keys
+                if len(key) == 34 and key[-1:] == b'\x01':
                     self.compressed = True
                     key = key[:-1]
-                else:
+                elif len(key) == 33:
                     self.compressed = False
+                else:
+                    raise BKeyError("Invalid WIF key, length of payload incorrect")
                 key_byte = key[1:]
                 key_hex = key_byte.hex()
             else:
